@@ -301,3 +301,54 @@ func vfLayerBatches(ny, nz int) {
 		}
 	}
 }
+
+// C11, several producers: two goroutines write their batches into the same
+// buffer (as the parallel renderers do); the collector holds exactly the
+// multiset of everything written, each producer's items in that producer's
+// order. Every unlock is a preemption point, four scheduling policies.
+type vfScript3Par struct{ a, b [][]*sdf.Triangle3 }
+
+func (r *vfScript3Par) Render(s sdf.SDF3, out sdf.Triangle3Writer) {
+	done := make(chan bool)
+	for _, bs := range [][][]*sdf.Triangle3{r.a, r.b} {
+		go func(bs [][]*sdf.Triangle3) {
+			for _, b := range bs {
+				out.Write(b)
+			}
+			done <- true
+		}(bs)
+	}
+	<-done
+	<-done
+	out.Close()
+}
+func (r *vfScript3Par) Info(s sdf.SDF3) string { return "scripted, two producers" }
+
+func vc_C11_two_producers() {
+	vfSchedPolicy(vfCase("policy", 4))
+	vfSchedYield(true)
+	pats := [][2][]int{{{1, 1, 1}, {2, 2}}, {{255, 3}, {1, 255}}, {{100, 100, 100}, {60, 60, 60, 60}}, {{256}, {256, 1}}}
+	pp := pats[vfCase("pattern", len(pats))]
+	ba, alla := vfMakeBatches(pp[0], 0)
+	bb, allb := vfMakeBatches(pp[1], 0)
+	// make the second producer's triangles distinguishable
+	for _, t := range allb {
+		t[0].Z, t[1].Z, t[2].Z = 1000, 1000, 1000
+	}
+	got := ToTriangles(nil, &vfScript3Par{ba, bb})
+	vfReach("ToTriangles returned (two producers)")
+	vfAssert(len(got) == len(alla)+len(allb), "collector holds as many triangles as both producers wrote")
+	ia, ib := 0, 0
+	for _, t := range got {
+		switch {
+		case ia < len(alla) && t == alla[ia]:
+			ia++
+		case ib < len(allb) && t == allb[ib]:
+			ib++
+		default:
+			vfAssert(false, "collector holds each producer's triangles exactly once and in that producer's order")
+			return
+		}
+	}
+	vfAssert(ia == len(alla) && ib == len(allb), "collector holds every triangle of both producers")
+}
